@@ -135,11 +135,11 @@ def refresh (sigma : Rat) (m : MinLim) (n : Nat) (xp : XP) (s : State) (sec : Li
     let fl := flagsOf sigma m (slice s.y a b) av' vr'
     some { s with ave := ave, var := var, flags := setSlice s.flags a fl }
 
-/-- one pass of `_outs_first`'s `while True` (the last flagged run, working backward); the `Outcome` says
-what the generator yielded -/
-def stepFirst (sigma : Rat) (m : MinLim) (n : Nat) (xp : XP) (s : State) : Option (State × Outcome) :=
+/-- one pass of `_outs_first`'s `while True` (the last flagged run, working backward): the state at
+the `yield`, what was yielded, and the state after the generator is resumed (`none`: the refresh raises) -/
+def stepFirst (sigma : Rat) (m : MinLim) (n : Nat) (xp : XP) (s : State) : Option (State × Outcome × Option State) :=
   match lastTrue s.flags with
-  | none => some ({ s with niter := s.niter + 1 }, Outcome.none)
+  | none => some ({ s with niter := s.niter + 1 }, Outcome.none, none)
   | some j =>
     match s.ave[j]?, s.var[j]? with
     | some av, some vr =>
@@ -148,19 +148,19 @@ def stepFirst (sigma : Rat) (m : MinLim) (n : Nat) (xp : XP) (s : State) : Optio
         | none => false) ((List.range j).reverse)
       let i := j - c
       let s1 := { s with out := markRange s.out i j, niter := s.niter + 1 }
-      if i = 0 then some (s1, Outcome.spikesThenNone) else
+      if i = 0 then some (s1, Outcome.spikesThenNone, none) else
       let flags := setSlice s1.flags i (List.replicate (j + 1 - i) false)
       let k := if s.y.length < j + n then s.y.length else j + n
       let y := setSlice s1.y i (slice s1.y (j + 1) k)
       let j' := i
       let i' := i - n
-      (refresh sigma m n xp { s1 with y := y, flags := flags } (slice y i' k) i' j' 0).map fun t => (t, Outcome.spikes)
+      some (s1, Outcome.spikes, refresh sigma m n xp { s1 with y := y, flags := flags } (slice y i' k) i' j' 0)
     | _, _ => none
 
 /-- one pass of `_outs_last` (the first flagged run, working forward) -/
-def stepLast (sigma : Rat) (m : MinLim) (n : Nat) (xp : XP) (s : State) : Option (State × Outcome) :=
+def stepLast (sigma : Rat) (m : MinLim) (n : Nat) (xp : XP) (s : State) : Option (State × Outcome × Option State) :=
   match firstTrue s.flags with
-  | none => some ({ s with niter := s.niter + 1 }, Outcome.none)
+  | none => some ({ s with niter := s.niter + 1 }, Outcome.none, none)
   | some i =>
     match s.ave[i]?, s.var[i]? with
     | some av, some vr =>
@@ -170,28 +170,32 @@ def stepLast (sigma : Rat) (m : MinLim) (n : Nat) (xp : XP) (s : State) : Option
         | none => false) ((List.range size).drop (i + 1))
       let j := i + c
       let s1 := { s with out := markRange s.out i j, niter := s.niter + 1 }
-      if j + 1 = size then some (s1, Outcome.spikesThenNone) else
+      if j + 1 = size then some (s1, Outcome.spikesThenNone, none) else
       let flags := setSlice s1.flags i (List.replicate (j + 1 - i) false)
       let k := i + 1 - n
       let count := i - k
       let y := setSlice s1.y (j + 1 - count) (slice s1.y k i)
       let i' := j
       let j' := if size < j + n then size else j + n
-      (refresh sigma m n xp { s1 with y := y, flags := flags } (slice y k j') i' j' ((j' - k) - (j' - i'))).map
-        fun t => (t, Outcome.spikes)
+      some (s1, Outcome.spikes,
+        refresh sigma m n xp { s1 with y := y, flags := flags } (slice y k j') i' j' ((j' - k) - (j' - i')))
     | _, _ => none
 
 /-- run a step function until it reports exhaustion or `maxiter` yields have been consumed -/
-def iterate (step : State → Option (State × Outcome)) (maxiter : Int) : Nat → State → Option State
+def iterate (step : State → Option (State × Outcome × Option State)) (maxiter : Int) : Nat → State → Option State
   | 0, _ => none
   | fuel + 1, s =>
     match step s with
     | none => none
-    | some (t, .none) => some t
-    | some (t, .spikesThenNone) =>
+    | some (t, .none, _) => some t
+    | some (t, .spikesThenNone, _) =>
       if 0 < maxiter ∧ maxiter ≤ (t.niter : Int) then some t else some { t with niter := t.niter + 1 }
-    | some (t, .spikes) =>
-      if 0 < maxiter ∧ maxiter ≤ (t.niter : Int) then some t else iterate step maxiter fuel t
+    | some (t, .spikes, resumed) =>
+      -- the generator is resumed (statistics refreshed around the removed run) only if another iteration is asked for
+      if 0 < maxiter ∧ maxiter ≤ (t.niter : Int) then some t else
+        match resumed with
+        | none => none
+        | some t' => iterate step maxiter fuel t'
 
 structure Result where
   /-- `s.pv` -/
@@ -267,9 +271,9 @@ def refreshD (sigma : Rat) (m : MinLim) (n : Nat) (xp : XP) (s : DState) (sec : 
     some { s with ave := setSlice s.ave a av', var := setSlice s.var a vr', flags := setSlice s.flags a fl }
 
 /-- one pass of `_outs_first_diff` -/
-def stepFirstD (sigma : Rat) (m : MinLim) (n : Nat) (xp : XP) (s : DState) : Option (DState × Outcome) :=
+def stepFirstD (sigma : Rat) (m : MinLim) (n : Nat) (xp : XP) (s : DState) : Option (DState × Outcome × Option DState) :=
   match lastTrue s.flags with
-  | none => some ({ s with niter := s.niter + 1 }, Outcome.none)
+  | none => some ({ s with niter := s.niter + 1 }, Outcome.none, none)
   | some j =>
     match s.ave[j]?, s.var[j]?, s.y[j + 1]? with
     | some av, some vr, some nxt =>
@@ -278,21 +282,20 @@ def stepFirstD (sigma : Rat) (m : MinLim) (n : Nat) (xp : XP) (s : DState) : Opt
         | none => false) ((List.range j).reverse)
       let i := j - c
       let s1 := { s with out := markRange s.out i j, niter := s.niter + 1 }
-      if i = 0 then some (s1, Outcome.spikesThenNone) else
+      if i = 0 then some (s1, Outcome.spikesThenNone, none) else
       let flags := setSlice s1.flags i (List.replicate (j + 1 - i) false)
       let k := if s.y.length < j + n then s.y.length else j + n
       let y := setSlice s1.y i (slice s1.y (j + 1) k)
       let j' := i
       let i' := i - n
       let dy := setSlice s1.dy i' (diffsQ (slice y i' (k + 1)))
-      (refreshD sigma m n xp { s1 with y := y, dy := dy, flags := flags } (slice dy i' k) i' j' 0).map
-        fun t => (t, Outcome.spikes)
+      some (s1, Outcome.spikes, refreshD sigma m n xp { s1 with y := y, dy := dy, flags := flags } (slice dy i' k) i' j' 0)
     | _, _, _ => none
 
 /-- one pass of `_outs_last_diff` -/
-def stepLastD (sigma : Rat) (m : MinLim) (n : Nat) (xp : XP) (s : DState) : Option (DState × Outcome) :=
+def stepLastD (sigma : Rat) (m : MinLim) (n : Nat) (xp : XP) (s : DState) : Option (DState × Outcome × Option DState) :=
   match firstTrue s.flags with
-  | none => some ({ s with niter := s.niter + 1 }, Outcome.none)
+  | none => some ({ s with niter := s.niter + 1 }, Outcome.none, none)
   | some i0 =>
     -- the spike in `y` is at `i0 + 1`; limit/ave are taken at `i0`
     match s.ave[i0]?, s.var[i0]?, s.y[i0]? with
@@ -304,7 +307,7 @@ def stepLastD (sigma : Rat) (m : MinLim) (n : Nat) (xp : XP) (s : DState) : Opti
         | none => false) ((List.range size).drop (i + 1))
       let j := i + c
       let s1 := { s with out := markRange s.out i j, niter := s.niter + 1 }
-      if j = s.dy.length then some (s1, Outcome.spikesThenNone) else
+      if j = s.dy.length then some (s1, Outcome.spikesThenNone, none) else
       let flags := setSlice s1.flags (i - 1) (List.replicate (j - (i - 1)) false)
       let k := i + 1 - n
       let count := i - k
@@ -312,20 +315,24 @@ def stepLastD (sigma : Rat) (m : MinLim) (n : Nat) (xp : XP) (s : DState) : Opti
       let i' := j
       let j' := if s.dy.length < j + n then s.dy.length else j + n
       let dy := setSlice s1.dy k (diffsQ (slice y k (j' + 1)))
-      (refreshD sigma m n xp { s1 with y := y, dy := dy, flags := flags } (slice dy k j') i' j'
-        ((j' - k) - (j' - i'))).map fun t => (t, Outcome.spikes)
+      some (s1, Outcome.spikes,
+        refreshD sigma m n xp { s1 with y := y, dy := dy, flags := flags } (slice dy k j') i' j' ((j' - k) - (j' - i')))
     | _, _, _ => none
 
-def iterateD (step : DState → Option (DState × Outcome)) (maxiter : Int) : Nat → DState → Option DState
+def iterateD (step : DState → Option (DState × Outcome × Option DState)) (maxiter : Int) : Nat → DState → Option DState
   | 0, _ => none
   | fuel + 1, s =>
     match step s with
     | none => none
-    | some (t, .none) => some t
-    | some (t, .spikesThenNone) =>
+    | some (t, .none, _) => some t
+    | some (t, .spikesThenNone, _) =>
       if 0 < maxiter ∧ maxiter ≤ (t.niter : Int) then some t else some { t with niter := t.niter + 1 }
-    | some (t, .spikes) =>
-      if 0 < maxiter ∧ maxiter ≤ (t.niter : Int) then some t else iterateD step maxiter fuel t
+    | some (t, .spikes, resumed) =>
+      -- the generator is resumed (statistics refreshed around the removed run) only if another iteration is asked for
+      if 0 < maxiter ∧ maxiter ≤ (t.niter : Int) then some t else
+        match resumed with
+        | none => none
+        | some t' => iterateD step maxiter fuel t'
 
 /-- `despike_diff(x, n, sigma, maxiter, threshold_sigma, threshold_value, exclude_point)` -/
 def despikeDiff (x : List Rat) (n0 : Nat) (sigma : Rat) (maxiter : Int) (ts : Rat) (tv : Option Rat) (xp : XP) :
